@@ -378,12 +378,15 @@ def check_retry():
 
 
 def explorations(tier):
-    b = {"preempt": 1, "random": 1, "yield": 1} if tier == "quick" else {"preempt": 2, "random": 1, "yield": 2}
+    b = {"preempt": 1, "random": 1, "yield": 1} if tier == "quick" else {"preempt": 2, "random": 1, "yield": 0}
     return [
         ("in-flight bound: calls, store ops, modified-time queries", FACTORY, cfgs_inflight(tier), b),
         ("rendezvous of w ready calls with w-1 / w / w+1 workers", FACTORY, cfgs_barrier(tier), {"preempt": 1, "random": 1, "yield": 1}),
-        ("fault patterns x max_errors", FACTORY, cfgs_errors(tier), {"preempt": 1 if tier == "quick" else 2, "random": 1, "yield": 1}),
-    ]
+        ("fault patterns x max_errors", FACTORY, cfgs_errors(tier), {"preempt": 1, "random": 1, "yield": 1} if tier == "quick" else {"preempt": 2, "random": 1, "yield": 0}),
+    ] + ([] if tier == "quick" else [
+        ("in-flight bound, <=1 preemption, <=2 non-default choices at blocking points", FACTORY, cfgs_inflight(tier), {"preempt": 1, "random": 1, "yield": 2}),
+        ("fault patterns x max_errors, <=1 preemption, <=1 non-default choice", FACTORY, cfgs_errors(tier), {"preempt": 1, "random": 1, "yield": 1}),
+    ])
 
 
 def run(tier):
